@@ -74,20 +74,23 @@ def build_catalogue():
             if not m:
                 continue
             raw = m.group(2).strip()
-            args = [ARGT.match(a.strip()).group(1) if ARGT.match(a.strip()) else "?" for a in raw.split(",")] if raw else []
-            optional = "[" in raw
             ret = m.group(3)
-            if optional:
-                continue
-            if not (any(PT.is_array(a) for a in args) or PT.is_array(ret)):
-                continue
-            if any(not (a in PT.TYPES or a in PT.ARRAYS) for a in args):
-                continue
-            key = (owner, name, tuple(args))
-            if key in seen:
-                continue
-            seen.add(key)
-            entries.append({"owner": owner, "name": name, "args": args, "ret": ret})
+            # optional trailing arguments "a, b [, c [, d]]": one entry per admissible argument count
+            required = raw.split("[")[0]
+            nreq = len([a for a in required.split(",") if a.strip()]) if required.strip() else 0
+            flat = raw.replace("[", "").replace("]", "")
+            allargs = [ARGT.match(a.strip()).group(1) if ARGT.match(a.strip()) else "?" for a in flat.split(",") if a.strip()] if flat else []
+            for cnt in range(nreq, len(allargs) + 1):
+                args = allargs[:cnt]
+                if not (any(PT.is_array(a) for a in args) or PT.is_array(ret)):
+                    continue
+                if any(not (a in PT.TYPES or a in PT.ARRAYS) for a in args):
+                    continue
+                key = (owner, name, tuple(args))
+                if key in seen:
+                    continue
+                seen.add(key)
+                entries.append({"owner": owner, "name": name, "args": args, "ret": ret})
 
     for n in sorted(dir(imath)):
         o = getattr(imath, n)
